@@ -53,9 +53,11 @@ type Contract struct {
 	ResultNames []string
 	RecvName    string
 	Requires    []*Clause
+	Assumes     []*Clause // assumed at entry, not checked at call sites (listed as assumptions)
 	Ensures     []*Clause
 	Modifies    []*Expr
 	HasModifies bool
+	Decreases   *Clause // termination measure for recursion
 	PanicsMode  string // "", never, maybe, when
 	PanicsWhen  *Clause
 	Loops       map[int]*LoopSpec
@@ -89,7 +91,15 @@ type UFun struct {
 	SMT    string // SMT symbol when different from Name (alias of an external function's symbol)
 }
 
+// a global invariant: established by the package initialiser, mentions only state that is never
+// written afterwards (checked structurally), assumed at the entry of every function
+type GInv struct {
+	Pkg string
+	Cl  *Clause
+}
+
 type ContractSet struct {
+	ginvs  []*GInv
 	ufuns  map[string]*UFun
 	byKey  map[string]*Contract
 	typed  map[string]*Contract
@@ -99,7 +109,7 @@ type ContractSet struct {
 	nlines int
 }
 
-var clauseKW = map[string]bool{"func": true, "requires": true, "ensures": true, "modifies": true, "panics": true,
+var clauseKW = map[string]bool{"func": true, "ginv": true, "decreases": true, "assumes": true, "requires": true, "ensures": true, "modifies": true, "panics": true,
 	"loop": true, "spec": true, "axiom": true, "typed": true, "trusted": true, "pure": true, "effects": true,
 	"ufun": true, "smtaxiom": true, "rec": true, "signature": true, "maporder": true, "sortkey_injective": true, "guarded_global": true, "guarded_by": true, "deterministic": true, "recursion": true, "immutable": true, "pkg": true, "dominates": true, "tags": true}
 
@@ -292,6 +302,13 @@ func (cs *ContractSet) loadFile(path, repo string) error {
 			}
 			raw := strings.TrimSpace(strings.TrimPrefix(strings.TrimSpace(strings.TrimPrefix(rest, f[0])), f[1]))
 			cs.ufuns[f[0]].Axioms = append(cs.ufuns[f[0]].Axioms, [2]string{f[1], raw})
+		case "ginv":
+			cl, err := parseClause("ginv", rest, path, rc.line)
+			if err != nil {
+				return fail(err)
+			}
+			cs.ginvs = append(cs.ginvs, &GInv{Pkg: pkg, Cl: cl})
+			cur = nil
 		case "axiom":
 			cl, err := parseClause("axiom", rest, path, rc.line)
 			if err != nil {
@@ -303,16 +320,24 @@ func (cs *ContractSet) loadFile(path, repo string) error {
 				return fail(fmt.Errorf("clause %q outside a func block", kw))
 			}
 			switch kw {
-			case "requires", "ensures":
+			case "requires", "ensures", "assumes":
 				cl, err := parseClause(kw, rest, path, rc.line)
 				if err != nil {
 					return fail(err)
 				}
-				if kw == "requires" {
+				if kw == "assumes" {
+					cur.Assumes = append(cur.Assumes, cl)
+				} else if kw == "requires" {
 					cur.Requires = append(cur.Requires, cl)
 				} else {
 					cur.Ensures = append(cur.Ensures, cl)
 				}
+			case "decreases":
+				cl, err := parseClause(kw, rest, path, rc.line)
+				if err != nil {
+					return fail(err)
+				}
+				cur.Decreases = cl
 			case "modifies":
 				cur.HasModifies = true
 				if rest != "nothing" {
